@@ -171,6 +171,7 @@ type Node struct {
 	Trav   traversal.Traverser
 	Pin    *pinning.Service
 	CI     *chunkinfo.ChunkInfo
+	APICI  *apiCI // what the API server holds: CI behind a pass-through wrapper (DelFile entry hook, see DeleteHeld)
 	Log    *PutLog
 	API    api.Service
 	Str    *switchStreamer
@@ -218,7 +219,8 @@ func (n *Node) startChunkInfo() error {
 	n.NS.SetChunkInfo(ci)
 	n.Retr.Config(ci)
 	n.Log = &PutLog{Storer: n.NS}
-	n.API = api.New(n.Log, resolverMock.NewResolver(), n.Addr, ci, n.Trav, n.Pin, &mockauth.Auth{}, n.Logger, nil, nil, nil, noChain{}, nil, nil,
+	n.APICI = &apiCI{Interface: ci}
+	n.API = api.New(n.Log, resolverMock.NewResolver(), n.Addr, n.APICI, n.Trav, n.Pin, &mockauth.Auth{}, n.Logger, nil, nil, nil, noChain{}, nil, nil,
 		api.Options{WsPingPeriod: 60 * time.Second})
 	if n.peer != nil {
 		Connect(n, n.peer)
@@ -580,6 +582,46 @@ func (n *Node) ServeToPeer(root, addr boson.Address) ([]byte, error) {
 		return nil, rerr
 	}
 	return d.Data, nil
+}
+
+// apiCI is the chunkinfo.Interface the API server is built with: everything is passed on to the real
+// ChunkInfo.  A one-shot hook can be armed for the NEXT DelFile call: it runs at the entry of that call,
+// before it is forwarded (i.e. before the real DelFile takes chunkinfo's syncLk).  A DELETE handler that
+// is held there has done everything it does before DelFile and nothing of what happens under the lock;
+// whatever the hook runs to completion meanwhile is an operation overlapping with that delete.
+type apiCI struct {
+	chunkinfo.Interface
+	mu   sync.Mutex
+	hook func(root boson.Address)
+}
+
+func (a *apiCI) DelFile(root boson.Address, del func() error) error {
+	a.mu.Lock()
+	h := a.hook
+	a.hook = nil
+	a.mu.Unlock()
+	if h != nil {
+		h(root)
+	}
+	return a.Interface.DelFile(root, del)
+}
+
+// DeleteHeld is Delete(ref) with `during` executed while the DELETE handler is held at the entry of
+// ChunkInfo.DelFile.  fired tells whether the handler got that far.
+func (n *Node) DeleteHeld(ref boson.Address, during func()) (code int, fired bool) {
+	n.APICI.mu.Lock()
+	n.APICI.hook = func(root boson.Address) {
+		if root.Equal(ref) {
+			fired = true
+			during()
+		}
+	}
+	n.APICI.mu.Unlock()
+	code = n.Delete(ref)
+	n.APICI.mu.Lock()
+	n.APICI.hook = nil
+	n.APICI.mu.Unlock()
+	return code, fired
 }
 
 // raceCI is the chunkinfo.Interface handed to the localstore during a scripted collection run: it
